@@ -13,6 +13,8 @@ LEVEL_TEXT = ('Static membership-fact rules at the composition level: for the fo
 
 
 def run(ctx):
+    from ..shape import rule_N4
+    rule_N4(ctx)      # per-member membership tests are reduced over the members
     from ..persist import rule_P8
     rule_P8(ctx)      # a restored emulator is the emulator whose verdicts filtered the cached proposals
     from ..persist import rule_P12k
